@@ -45,6 +45,7 @@ EXPECT = {  # subject substring -> checks that should detect the reversal
     "pending request is installed and taken under a lock": ["C15"],
     "Handler::Context is atomic": ["C09"],
     "keeps its sub-second part": ["C15"],
+    "exactly the one request that waited": ["C15"],
     "nothing left to write is ignored": ["C08"],
     "lock the peer once": ["C08"],
     "given up when a request on it times out": ["C15"],
